@@ -65,28 +65,80 @@ def l1(b):
     return bytes(b).decode('latin-1')
 
 
+def joined(x):
+    if isinstance(x, (bytes, bytearray)):
+        return bytes(x)
+    return b''.join(x or [])
+
+
+def body_so_far(p):
+    """body bytes parsed so far, read through the public recv_body() on a shallow copy (non-destructive)"""
+    import copy
+    q = copy.copy(p)
+    return q.recv_body()
+
+
 def pstate(p):
     """canonical state of a real parser, same shape as Model/HttpFramingObs.obs_state"""
     if p is None:
         return [0, '']
-    buf = l1(b''.join(p._buf))
+    buf = l1(joined(p._buf))
     fl = (p.t_fl or '')
     blk = l1(p.t_blk or b'')
-    body = l1(b''.join(p._body))
     if p.t_crash:
         return [6]
     hc = p.is_headers_complete()
     if p.errno is not None and not hc:
         return [5, p.errno]
+    body = l1(body_so_far(p))
     if p.is_message_complete():
         return [4, fl, blk, body]
     if hc:
         if p.is_chunked():
             return [3, fl, blk, body, buf]
-        return [2, fl, blk, [] if p._clen is None else [p._clen], [] if p._clen_rest is None else [p._clen_rest], body]
+        return [2, fl, blk, body]
     if p.t_fl_ok:
         return [1, fl, buf]
     return [0, buf]
+
+
+def find_parser(obj, key=None):
+    """the parser a component holds (for key, if it keeps a table): by the attribute the anchors name, else by type"""
+    for name in ('_buffers', '_parser'):
+        v = getattr(obj, name, None)
+        if isinstance(v, dict) and key is not None:
+            return v.get(key)
+        if isinstance(v, RealParser):
+            return v
+    for v in vars(obj).values():
+        if isinstance(v, RealParser):
+            return v
+        if isinstance(v, dict) and key is not None and isinstance(v.get(key), RealParser):
+            return v.get(key)
+    return None
+
+
+def table_sizes(http):
+    out = []
+    for name in ('_buffers', '_clients'):
+        v = getattr(http, name, None)
+        out.append(len(v) if v is not None else -1)
+    return out
+
+
+def tc(x):
+    """byte strings are compared by length and checksum (Model/HttpFramingObs.Tc)"""
+    if isinstance(x, str):
+        x = x.encode('latin-1')
+    acc = 0
+    for b in x:
+        acc = (acc * 257 + b + 1) % 1000000007
+    return [len(x), acc]
+
+
+def kstate(st):
+    """pstate -> the form compared with the model (strings replaced by length + checksum)"""
+    return [tc(x) if isinstance(x, str) else x for x in st]
 
 
 def pshort(p):
@@ -98,7 +150,7 @@ def pshort(p):
     if t == 1:
         return [1, len(st[2]), 0]
     if t == 2:
-        return [2, 0, len(st[5])]
+        return [2, 0, len(st[3])]
     if t == 3:
         return [3, len(st[4]), len(st[3])]
     if t == 4:
@@ -131,12 +183,14 @@ def hd_value(blk):
     except parser_mod.InvalidHeader:
         return None
     raw = p.get_headers().get('content-length')
-    if raw is not None and p._clen is None:
+    try:
+        clen = None if raw is None else int(raw)
+    except ValueError:
         raise ValueError('unparsable Content-Length is outside the model')
     conn = p.get_headers().get('connection', '').lower()
     if 'upgrade' in conn:
         raise ValueError('Connection: upgrade is outside the model')
-    return (p._clen, bool(p.is_chunked()))
+    return (clen, bool(p.is_chunked()))
 
 
 # ----------------------------------------------------------------------------- doubles
@@ -246,7 +300,7 @@ def drive_parser(kind, reads, tables):
                 p.execute(d, len(d))
             except Exception:
                 p.t_crash = True
-        trace.append([pshort(p), []])
+        trace.append([pshort(p), [[2]] if p.t_crash else []])
     note_tables(tables, [p])
     return [compress(trace), pstate(p)]
 
@@ -276,7 +330,7 @@ def drive_server(msgs_reads, tables):
             for d in reads:
                 n0 = len(app.log)
                 ncreated = len(TParser.created)
-                p = http._buffers.get(sock)
+                p = find_parser(http, sock)
                 m.fire(read(sock, d), 'web')
                 drain(m)
                 if p is None and len(TParser.created) > ncreated:
@@ -290,7 +344,7 @@ def drive_server(msgs_reads, tables):
                         evs.append([1])
                     elif rec[0] == 'httperror' and rec[1] in (500, None) and not any(r[0] == 'request' for r in new):
                         evs.append([2])
-                trace.append([pshort(http._buffers.get(sock)), evs])
+                trace.append([pshort(find_parser(http, sock)), evs])
                 for rec in new:
                     if rec[0] == 'write':
                         log.append(['write', strip_date(rec[1])])
@@ -304,7 +358,7 @@ def drive_server(msgs_reads, tables):
                 flat[-1] = ['write', flat[-1][1] + rec[1]]
             else:
                 flat.append(list(rec))
-        return [compress(trace), pstate(http._buffers.get(sock))], flat, [len(http._buffers), len(http._clients)]
+        return [compress(trace), pstate(find_parser(http, sock))], flat, table_sizes(http)
     finally:
         webhttp.HttpParser = old
 
@@ -319,12 +373,16 @@ def drive_client(msgs_reads, tables):
         cl = Client().register(m)
         probe = ClientProbe().register(m)
         drain(m)
-        comp = [c for c in cl._transport.components if isinstance(c, ClientHTTP)][0]
+        def walk(c):
+            yield c
+            for k in list(c.components):
+                yield from walk(k)
+        comp = [c for c in walk(cl) if isinstance(c, ClientHTTP)][0]
         trace, log = [], []
         for reads in msgs_reads:
             for d in reads:
                 n0 = len(probe.log)
-                p = comp._parser
+                p = find_parser(comp)
                 crashed = getattr(p, 't_crash', False)
                 orig = p.execute
 
@@ -337,21 +395,26 @@ def drive_client(msgs_reads, tables):
                 p.execute = ex
                 m.fire(read(d), 'client')
                 drain(m)
-                p.execute = orig
+                try:
+                    del p.execute
+                except AttributeError:
+                    pass
                 new = probe.log[n0:]
                 evs = [[0, p.t_fl or '', l1(p.t_blk or b''), rec[4]] for rec in new]
                 if p.t_crash:
                     evs.append([2])
-                trace.append([pshort(comp._parser), evs])
+                trace.append([pshort(find_parser(comp)), evs])
                 log.extend(new)
         note_tables(tables, TParser.created)
         last = cl.response
-        return [compress(trace), pstate(comp._parser)], log, None if last is None else [last.status, l1(last.body.getvalue())]
+        return [compress(trace), pstate(find_parser(comp))], log, None if last is None else [last.status, l1(last.body.getvalue())]
     finally:
         parsers_pkg.HttpParser = old
         try:
-            if cl is not None and cl._transport._sock is not None:
-                cl._transport._sock.close()
+            for c in walk(cl):
+                sk = getattr(c, '_sock', None)
+                if sk is not None:
+                    sk.close()
         except Exception:
             pass
 
@@ -533,8 +596,8 @@ class C13(Prop):
     id = 'C13'
     props_file = 'Props/C13.v'
     imports = ['Model.HttpFraming', 'Model.HttpFramingObs']
-    quick_n = 260
-    thorough_n = 4000
+    quick_n = 230
+    thorough_n = 2500
     rule = ('grammar-generated HTTP/1.0 and 1.1 requests (7 methods, paths with query, header sets with case variants, '
             'obs-fold continuation lines, bodies: none / Content-Length (incl. 0, bytes containing CRLF, "0 CRLF CRLF", '
             'request lines) / chunked with extensions, leading zeros, upper-case hex, trailers) and responses (status '
@@ -696,7 +759,7 @@ class C13(Prop):
             for key, v in items:
                 o = msg.find(key)
                 if o >= 0:
-                    sl.append('(%d%%nat, %d%%nat, %s)' % (o, len(key), fmt(v)))
+                    sl.append('(%d%%N, %d%%N, %s)' % (o, len(key), fmt(v)))
                 else:
                     lit.append('(%s, %s)' % (nlist(key), fmt(v)))
             return '[%s]' % '; '.join(sl), '[%s]' % '; '.join(lit)
@@ -719,13 +782,22 @@ class C13(Prop):
                 continue
         sfl, lfl = entries(fl_items, fmt_fl)
         shd, lhd = entries(sorted(tables['hd'].items()), fmt_hd)
-        return 'obs_run %d%%nat %s %s [%s]%%nat %s %s %s %s' % (
-            mode, 'true' if kind else 'false', nlist(msg), ';'.join(str(x) for x in cuts), sfl, lfl, shd, lhd)
+        ranges = []
+        for x in cuts:
+            if ranges and ranges[-1][1] == x - 1:
+                ranges[-1][1] = x
+            else:
+                ranges.append([x, x])
+        return 'obs_run %d%%nat %s %s [%s] %s %s %s %s' % (
+            mode, 'true' if kind else 'false', '[%s]' % ';'.join('x%02x' % b for b in msg),
+            ';'.join('(%d%%N,%d%%N)' % (a, b) for a, b in ranges), sfl, lfl, shd, lhd)
 
     def obs_for_model(self, c, obs):
         if isinstance(obs, dict) and '__crash__' in obs:
             return [-999]
-        return obs['trace']
+        tr, fin = obs['trace']
+        tr = [[i, short, [kstate(e) for e in evs]] for (i, short, evs) in tr]
+        return [tr, kstate(fin)]
 
     # ---- oracle (independent of the model: one-piece delivery and the generator's knowledge)
     def oracle(self, c, obs):
@@ -807,11 +879,6 @@ def match_request(r, e):
     if body != e['body']:
         return 'body seen %r, sent %r' % (body, e['body'])
     return None
-
-
-# Coq elaborates large literals slowly: smaller shards, evaluated in parallel by the framework
-_orig_mismatches = common.coq_mismatches
-common.coq_mismatches = lambda pid, imports, pairs, shard=40: _orig_mismatches(pid, imports, pairs, shard)
 
 
 if __name__ == '__main__':
